@@ -43,7 +43,10 @@ func specialLeaves(T types.Type) ([]Leaf, bool) {
 		"github.com/mycoria/mycoria/mgr.noCopy", "sync/atomic.noCopy", "sync.noCopy",
 		"sync/atomic.align64":
 		return nil, true
-	case "time.Location", "math/big.Int", "reflect.Value", "reflect.rtype":
+	case "reflect.Value":
+		// carries the interface value it was made from (dynamic type tag, payload)
+		return []Leaf{{".t", sInt}, {".r", sInt}}, true
+	case "time.Location", "math/big.Int", "reflect.rtype":
 		return []Leaf{{"", sOpq}}, true
 	}
 	return nil, false
